@@ -1782,4 +1782,151 @@ theorem aggregateStats_spec (g : Nat) (data : Buffer) (c2r : List (Nat × Nat)) 
   obtain ⟨f1, f2, f3, f4, f5⟩ := colOf_fields rows j
   simp only [List.getElem?_map, hg, Option.map_some, f1, f2, f3, f4, f5, and_self]
 
+
+/-! ### aggregation of a directly computed file -/
+
+theorem summaryStats_genes_length (g : Nat) (cells : List (List Rat))
+    (hlen : ∀ c ∈ cells, c.length = g) :
+    (summaryStats cells).genes.length = if cells = [] then 0 else g := by
+  induction cells with
+  | nil => rfl
+  | cons c cells ih =>
+    have ih' := ih (fun c hc => hlen c (by simp [hc]))
+    have hc : c.length = g := hlen c (by simp)
+    simp only [summaryStats] at ih'
+    simp only [summaryStats, List.map_cons, rowSum_cons, Row.add, vadd_length, ih', cellStat,
+      List.length_map, hc]
+    split <;> simp
+
+theorem zero_add_summaryStats_length (g : Nat) (cells : List (List Rat))
+    (hlen : ∀ c ∈ cells, c.length = g) :
+    ((Row.zero g).add (summaryStats cells)).genes.length = g := by
+  simp only [Row.add, vadd_length, summaryStats_genes_length g cells hlen, Row.zero,
+    List.length_replicate]
+  split <;> simp
+
+theorem sum_flatMap_rat {α β : Type} (F : α → List β) (h : β → Rat) : ∀ (L : List α),
+    ((L.flatMap F).map h).sum = (L.map (fun l => ((F l).map h).sum)).sum := by
+  intro L
+  induction L with
+  | nil => rfl
+  | cons l L ih => simp [List.flatMap_cons, List.map_append, List.sum_append, ih]
+
+theorem sum_flatMap_nat {α β : Type} (F : α → List β) (h : β → Nat) : ∀ (L : List α),
+    ((L.flatMap F).map h).sum = (L.map (fun l => ((F l).map h).sum)).sum := by
+  intro L
+  induction L with
+  | nil => rfl
+  | cons l L ih => simp [List.flatMap_cons, List.map_append, List.sum_append, ih]
+
+theorem length_flatMap_sum {α β : Type} (F : α → List β) : ∀ (L : List α),
+    (L.flatMap F).length = (L.map (fun l => (F l).length)).sum := by
+  intro L
+  induction L with
+  | nil => rfl
+  | cons l L ih => simp [List.flatMap_cons, ih]
+
+theorem precompute_aggregate (nC g : Nat) (ntr : List (Nat × Nat))
+    (files : List (Nat × List CellRec)) (rows nProc : Nat)
+    (hrows : 1 ≤ rows) (hproc : 1 ≤ nProc) (hntr : ∀ p ∈ ntr, p.2 < nC)
+    (hw : ∃ f ∈ files, wanted ntr f.2 = true)
+    (hg : ∀ f ∈ files, ∀ cell ∈ f.2, cell.vals.length = g)
+    (c2r : List (Nat × Nat)) (leaves : List Nat)
+    (hlook : ∀ l ∈ leaves, ∃ i, c2r.lookup l = some i ∧ i < nC) :
+    ∃ buf a, precompute nC g ntr files rows nProc = .ok buf ∧
+      aggregateStats g buf c2r leaves = .ok a ∧
+      a.n = (leaves.flatMap (fun l =>
+        cellsOfRow ntr ((c2r.lookup l).getD 0) (files.flatMap (·.2)))).length ∧
+      ∀ j : Nat, j < g →
+        a.mean[j]? = some (meanOf a.n ((leaves.flatMap (fun l =>
+          cellsOfRow ntr ((c2r.lookup l).getD 0) (files.flatMap (·.2)))).map
+            (fun cell => cell.vals.getD j 0)).sum) ∧
+        a.var[j]? = some (varOf a.n
+          ((leaves.flatMap (fun l =>
+            cellsOfRow ntr ((c2r.lookup l).getD 0) (files.flatMap (·.2)))).map
+              (fun cell => cell.vals.getD j 0)).sum
+          ((leaves.flatMap (fun l =>
+            cellsOfRow ntr ((c2r.lookup l).getD 0) (files.flatMap (·.2)))).map
+              (fun cell => cell.vals.getD j 0 * cell.vals.getD j 0)).sum) ∧
+        a.gt0[j]? = some ((leaves.flatMap (fun l =>
+          cellsOfRow ntr ((c2r.lookup l).getD 0) (files.flatMap (·.2)))).map
+            (fun cell => (geneStat (cell.vals.getD j 0)).gt0)).sum ∧
+        a.gt1[j]? = some ((leaves.flatMap (fun l =>
+          cellsOfRow ntr ((c2r.lookup l).getD 0) (files.flatMap (·.2)))).map
+            (fun cell => (geneStat (cell.vals.getD j 0)).gt1)).sum ∧
+        a.ge1[j]? = some ((leaves.flatMap (fun l =>
+          cellsOfRow ntr ((c2r.lookup l).getD 0) (files.flatMap (·.2)))).map
+            (fun cell => (geneStat (cell.vals.getD j 0)).ge1)).sum := by
+  obtain ⟨buf, e, hl, r⟩ := precompute_spec nC g ntr files rows nProc hrows hproc hntr hw
+  obtain ⟨a, ha, _, hn, hgenes⟩ := aggregateStats_spec g buf c2r leaves
+    (fun l hl' => by obtain ⟨i, h1, h2⟩ := hlook l hl'; exact ⟨i, h1, by omega⟩)
+  -- the members of the row of leaf `l`, and the row the file holds for it
+  let mem : Nat → List CellRec := fun l =>
+    cellsOfRow ntr ((c2r.lookup l).getD 0) (files.flatMap (·.2))
+  let R : Nat → Row := fun l => (Row.zero g).add (summaryStats ((mem l).map (·.vals)))
+  have hmemlen : ∀ l, ∀ v ∈ (mem l).map (·.vals), v.length = g := by
+    intro l v hv
+    simp only [mem, List.mem_map, cellsOfRow, List.mem_filter, List.mem_flatMap] at hv
+    obtain ⟨cell, ⟨⟨f, hf, hcell⟩, _⟩, rfl⟩ := hv
+    exact hg f hf cell hcell
+  have hrows : addressedRows buf c2r leaves = leaves.map R := by
+    apply filterMap_eq_map_of_forall
+    intro l hl'
+    obtain ⟨i, h1, h2⟩ := hlook l hl'
+    simp only [h1, Option.bind_some, r i h2, R, mem, Option.getD_some, summaryStats_cellsOfRow]
+  have hRn : ∀ l, (R l).n = (mem l).length := by
+    intro l; simp [R, Row.add, Row.zero, summaryStats_n]
+  have hRg : ∀ l j, j < g → (R l).genes.getD j GStat.zero = colStat ((mem l).map (·.vals)) j := by
+    intro l j hj
+    rw [List.getD_eq_getElem?_getD, zero_add_summaryStats_genes g _ (hmemlen l) j hj]
+    rfl
+  rw [hrows] at hn hgenes
+  have hn' : a.n = (leaves.flatMap mem).length := by
+    rw [hn, length_flatMap_sum, List.map_map]
+    congr 1
+    apply List.map_congr_left
+    intro l _; exact hRn l
+  refine ⟨buf, a, e, ha, hn', fun j hj => ?_⟩
+  obtain ⟨m1, m2, m3, m4, m5⟩ := hgenes (by
+    intro r' hr'
+    simp only [List.mem_map] at hr'
+    obtain ⟨l, _, rfl⟩ := hr'
+    exact zero_add_summaryStats_length g _ (hmemlen l)) j hj
+  have key : ∀ l, (R l).genes.getD j GStat.zero = colStat ((mem l).map (·.vals)) j :=
+    fun l => hRg l j hj
+  have c := fun l => colStat_fields ((mem l).map (·.vals)) j
+  simp only [List.map_map, Function.comp_def, key] at m1 m2 m3 m4 m5 c
+  rw [m1, m2, m3, m4, m5]
+  simp only [sum_flatMap_rat, sum_flatMap_nat, (c _).1, (c _).2.1, (c _).2.2.1, (c _).2.2.2.1,
+    (c _).2.2.2.2, and_self, mem]
+
+theorem precompute_aggregate_mean_var (nC g : Nat) (ntr : List (Nat × Nat))
+    (files : List (Nat × List CellRec)) (rows nProc : Nat)
+    (hrows : 1 ≤ rows) (hproc : 1 ≤ nProc) (hntr : ∀ p ∈ ntr, p.2 < nC)
+    (hw : ∃ f ∈ files, wanted ntr f.2 = true)
+    (hg : ∀ f ∈ files, ∀ cell ∈ f.2, cell.vals.length = g)
+    (c2r : List (Nat × Nat)) (leaves : List Nat)
+    (hlook : ∀ l ∈ leaves, ∃ i, c2r.lookup l = some i ∧ i < nC) :
+    ∃ buf a, precompute nC g ntr files rows nProc = .ok buf ∧
+      aggregateStats g buf c2r leaves = .ok a ∧
+      ∀ j : Nat, j < g → ∃ (xs : List Rat) (m v : Rat),
+        xs = (leaves.flatMap (fun l =>
+          cellsOfRow ntr ((c2r.lookup l).getD 0) (files.flatMap (·.2)))).map
+            (fun cell => cell.vals.getD j 0) ∧
+        a.n = xs.length ∧ a.mean[j]? = some m ∧ a.var[j]? = some v ∧
+        (1 ≤ xs.length → m * (xs.length : Rat) = xs.sum) ∧
+        (2 ≤ xs.length → v * ((xs.length : Rat) - 1) = (xs.map (fun x => (x - m) ^ 2)).sum) := by
+  obtain ⟨buf, a, e, ha, hn, hj⟩ := precompute_aggregate nC g ntr files rows nProc hrows hproc
+    hntr hw hg c2r leaves hlook
+  refine ⟨buf, a, e, ha, fun j hjg => ?_⟩
+  obtain ⟨m1, m2, _⟩ := hj j hjg
+  refine ⟨_, _, _, rfl, by rw [hn, List.length_map], m1, m2, ?_, ?_⟩
+  · intro h1
+    rw [hn, ← List.length_map (f := fun cell : CellRec => cell.vals.getD j 0)]
+    exact meanOf_mul _ _ h1
+  · intro h2
+    have := varOf_mul _ h2
+    rw [hn, ← List.length_map (f := fun cell : CellRec => cell.vals.getD j 0)]
+    simpa [List.map_map, Function.comp_def] using this
+
 end CTM.Stats
